@@ -153,9 +153,14 @@ def make_path_fn(h, known_regions, do_replay=True):
         except Exception as e:
             out = Raised(type(e).__name__, str(e))
             tb = traceback.format_exc()
-        clauses = h.spec(inp, out)
-        phi = _and(clauses)
-        regs = {k: _to_bool(v) for k, v in h.regions(inp).items() if k in known_regions}
+        # the oracle only builds formulas: forking inside it would silently strengthen the path condition
+        ctx.no_fork = True
+        try:
+            clauses = h.spec(inp, out)
+            phi = _and(clauses)
+            regs = {k: _to_bool(v) for k, v in h.regions(inp).items() if k in known_regions}
+        finally:
+            ctx.no_fork = False
         R = z3.Or(list(regs.values())) if regs else z3.BoolVal(False)
         res = {"harness": h.name, "raised": out.type if isinstance(out, Raised) else None, "t_exec": time.time() - t0}
         # obligation 1: no violation outside the known regions
